@@ -335,7 +335,6 @@ func preludeStrings() string {
 (assert (forall ((a Str) (b Str)) (! (= (gs.len (gs.cat a b)) (+ (gs.len a) (gs.len b))) :pattern ((gs.cat a b)))))
 (assert (forall ((a Str)) (! (= (gs.cat a gs.empty) a) :pattern ((gs.cat a gs.empty)))))
 (assert (forall ((a Str)) (! (= (gs.cat gs.empty a) a) :pattern ((gs.cat gs.empty a)))))
-(assert (forall ((a Str) (b Str) (c Str)) (! (= (gs.cat (gs.cat a b) c) (gs.cat a (gs.cat b c))) :pattern ((gs.cat (gs.cat a b) c)))))
 (assert (forall ((s Str) (i Int) (j Int)) (! (=> (and (<= 0 i) (<= i j) (<= j (gs.len s))) (= (gs.len (gs.sub s i j)) (- j i))) :pattern ((gs.sub s i j)))))
 (assert (forall ((s Str)) (! (= (gs.sub s 0 (gs.len s)) s) :pattern ((gs.sub s 0 (gs.len s))))))
 (assert (forall ((a Str) (b Str) (i Int) (j Int)) (! (=> (and (<= 0 i) (<= i j) (<= j (gs.len a))) (= (gs.sub (gs.cat a b) i j) (gs.sub a i j))) :pattern ((gs.sub (gs.cat a b) i j)))))
@@ -343,6 +342,7 @@ func preludeStrings() string {
 (assert (forall ((s Str) (i Int) (j Int) (k Int) (l Int)) (! (=> (and (<= 0 i) (<= i j) (<= j (gs.len s)) (<= 0 k) (<= k l) (<= l (- j i))) (= (gs.sub (gs.sub s i j) k l) (gs.sub s (+ i k) (+ i l)))) :pattern ((gs.sub (gs.sub s i j) k l)))))
 (assert (forall ((a Str) (b Str) (i Int)) (! (=> (and (<= 0 i) (< i (gs.len a))) (= (gs.at (gs.cat a b) i) (gs.at a i))) :pattern ((gs.at (gs.cat a b) i)))))
 (assert (forall ((a Str) (b Str) (i Int)) (! (=> (and (<= (gs.len a) i) (< i (+ (gs.len a) (gs.len b)))) (= (gs.at (gs.cat a b) i) (gs.at b (- i (gs.len a))))) :pattern ((gs.at (gs.cat a b) i)))))
+(assert (forall ((s Str) (l Int) (i Int) (j Int)) (! (=> (and (<= 0 i) (<= i j) (<= j l) (<= l (gs.len s))) (= (gs.sub s i j) (gs.sub (gs.sub s 0 l) i j))) :pattern ((gs.sub s i j) (gs.sub s 0 l)))))
 (assert (forall ((s Str) (i Int) (j Int) (k Int)) (! (=> (and (<= 0 i) (<= i j) (<= j (gs.len s)) (<= 0 k) (< k (- j i))) (= (gs.at (gs.sub s i j) k) (gs.at s (+ i k)))) :pattern ((gs.at (gs.sub s i j) k)))))
 (assert (forall ((s Str) (i Int)) (! (and (<= 0 (gs.at s i)) (<= (gs.at s i) 255)) :pattern ((gs.at s i)))))
 (assert (forall ((s Str)) (! (and (<= 0 (gs.val s)) (< (gs.val s) (pow2big (gs.len s)))) :pattern ((gs.val s)))))
@@ -350,14 +350,19 @@ func preludeStrings() string {
 (assert (gs.isbin gs.empty))
 (assert (forall ((s Str) (a Int) (b Int)) (! (=> (and (<= 0 a) (< a b) (<= b (gs.len s))) (= (gs.val (gs.sub s a b)) (+ (ite (= (gs.at s a) 49) (pow2big (- (- b a) 1)) 0) (gs.val (gs.sub s (+ a 1) b))))) :pattern ((gs.val (gs.sub s a b)) (gs.at s a)))))
 (assert (forall ((s Str) (a Int)) (! (=> (and (<= 0 a) (<= a (gs.len s))) (= (gs.sub s a a) gs.empty)) :pattern ((gs.sub s a a)))))
+(assert (forall ((s Str)) (! (=> (and (>= (gs.len s) 1) (= (gs.at s 0) 49)) (>= (gs.val s) (pow2big (- (gs.len s) 1)))) :pattern ((gs.val s) (gs.at s 0)))))
 (assert (forall ((a Str) (b Str)) (! (=> (= (gs.val a) 0) (= (gs.val (gs.cat a b)) (gs.val b))) :pattern ((gs.val (gs.cat a b))))))
 (assert (forall ((a Str) (b Str)) (! (= (gs.isbin (gs.cat a b)) (and (gs.isbin a) (gs.isbin b))) :pattern ((gs.isbin (gs.cat a b))))))
 (assert (forall ((s Str) (a Int) (b Int)) (! (=> (and (gs.isbin s) (<= 0 a) (<= a b) (<= b (gs.len s))) (gs.isbin (gs.sub s a b))) :pattern ((gs.isbin (gs.sub s a b))))))
 (assert (forall ((i Int)) (! (=> (>= i 0) (and (gs.isbin (gs.bin i)) (= (gs.val (gs.bin i)) i) (>= (gs.len (gs.bin i)) 1) (=> (> i 0) (= (gs.at (gs.bin i) 0) 49)))) :pattern ((gs.bin i)))))
 (assert (forall ((i Int) (n Int)) (! (=> (and (>= i 0) (>= n 1)) (= (<= (gs.len (gs.bin i)) n) (< i (pow2big n)))) :pattern ((gs.bin i) (pow2big n)))))
+(assert (forall ((i Int)) (! (=> (and (>= i 0) (< i 9223372036854775807)) (= (gs.len (gs.bin i)) (bitsfor (+ i 1)))) :pattern ((gs.bin i)))))
 (assert (forall ((i Int)) (! (= (gs.atoi (gs.itoa i)) i) :pattern ((gs.itoa i)))))
 (assert (forall ((i Int)) (! (>= (gs.len (gs.itoa i)) 1) :pattern ((gs.itoa i)))))
 (assert (forall ((s Str)) (! (= (gs.len (gs.lower s)) (gs.len s)) :pattern ((gs.lower s)))))
+(assert (forall ((a Str) (b Str)) (! (= (gs.lower (gs.cat a b)) (gs.cat (gs.lower a) (gs.lower b))) :pattern ((gs.lower (gs.cat a b))))))
+(assert (forall ((i Int)) (! (= (gs.lower (gs.itoa i)) (gs.itoa i)) :pattern ((gs.lower (gs.itoa i))))))
+(assert (forall ((s Str)) (! (= (gs.lower (gs.lower s)) (gs.lower s)) :pattern ((gs.lower (gs.lower s))))))
 (assert (forall ((s Str)) (! (= (gs.len (gs.upper s)) (gs.len s)) :pattern ((gs.upper s)))))
 (assert (forall ((c Int)) (! (and (= (gs.len (gs.ofbyte c)) 1) (=> (and (<= 0 c) (<= c 255)) (= (gs.at (gs.ofbyte c) 0) c))) :pattern ((gs.ofbyte c)))))
 `
